@@ -111,6 +111,8 @@ pub struct Probe {
     pub idle_timeout: Option<Duration>,
     /// Sequence number of the remote CID in use
     pub rem_cid_seq: u64,
+    /// The remote CID in use
+    pub rem_cid: Vec<u8>,
     /// Whether a close packet is still owed
     pub close_pending: bool,
     /// MTU upper bound peer allows
@@ -179,6 +181,7 @@ impl Connection {
             key_phase: self.key_phase,
             idle_timeout: self.idle_timeout,
             rem_cid_seq: self.rem_cids.active_seq(),
+            rem_cid: self.rem_cids.active().to_vec(),
             close_pending: self.close,
             peer_max_udp_payload_size: self.peer_params.max_udp_payload_size.into_inner(),
         }
